@@ -82,6 +82,9 @@ class Stage:
     # stages that are functions of their arguments only (no per-call state is meant to live on the object): two
     # overlapping calls on ONE object - a user thread pool, the threaded scheduler - must not disturb each other
     reentrant = False
+    # single-precision inputs are compared at single-precision accuracy relative to the VALUE; stages whose outputs are
+    # angles that pass through zero (geometry) amplify input rounding without bound in that measure: not compared
+    float32_ok = True
 
     # memory representations of the same values that the stage accepts on the pinned tree (probed): non-native byte
     # order (what astropy hands back for columns read from a FITS file), 2-D Fortran-ordered and transposed arrays
@@ -111,6 +114,7 @@ class Stage:
 
 class GeomThrow(Stage):
     name = "geometry.throw"
+    float32_ok = False
 
     def other_case(self, case):
         cfg = dict(case["cfg"])
@@ -166,6 +170,7 @@ class GeomThrow(Stage):
 class TargetThrow(Stage):
     name = "geometry.target"
     max_n = 300
+    float32_ok = False
     layouts = ("bigendian",)
 
     def make(self, case):
@@ -505,6 +510,31 @@ def body_stage(case):
                 r = stage.call_layout(obj, arrays, c, which, (r_, n // r_) if r_ else (1, n))
             want = base
             labels.add(f"layout_{which}")
+        elif which == "float32":
+            # single-precision input arrays (FITS 'E' columns): what the call returns for the same numbers in double
+            # precision, to single-precision accuracy (1e-3 relative or 1e-5 of the largest value: the stages' own
+            # formulas amplify input rounding), with the same pattern of non-finite values
+            if not stage.layouts or not stage.float32_ok:
+                continue
+            a32 = tuple(np.asarray(a, dtype=np.float32) for a in arrays)
+            a64 = tuple(a.astype(np.float64) for a in a32)
+            with cut(f"{stage.name}(float64 arrays holding single-precision numbers)"):
+                ref64 = [np.asarray(o) for o in stage.call(stage.make(case), a64, c)]
+            with cut(f"{stage.name}(float32 input arrays)"):
+                r32 = [np.asarray(o) for o in stage.call(obj, a32, c)]
+            for j2, (g, w) in enumerate(zip(r32, ref64)):
+                require(g.shape == w.shape, f"{stage.name}: output #{j2} has shape {g.shape} for float32 inputs, {w.shape} for float64 inputs")
+                if w.dtype.kind == "f" or g.dtype.kind == "f":
+                    gf, wf = g.astype(np.float64), w.astype(np.float64)
+                    fin = np.isfinite(wf)
+                    require(np.array_equal(fin, np.isfinite(gf)), f"{stage.name}: float32 input arrays give non-finite values in output #{j2} where the same numbers as float64 give finite ones (or vice versa): {gf[fin != np.isfinite(gf)][:3].tolist()}")
+                    scale = float(np.max(np.abs(wf[fin]))) if fin.any() else 0.0
+                    bad = np.abs(gf[fin] - wf[fin]) > 1e-3 * np.abs(wf[fin]) + 1e-5 * scale
+                    require(not bad.any(), f"{stage.name}: float32 input arrays give {gf[fin][bad][:3].tolist()} in output #{j2}, the same numbers as float64 arrays {wf[fin][bad][:3].tolist()} ({int(bad.sum())} of {g.size} values beyond single-precision accuracy)")
+                else:
+                    require(np.array_equal(g, w), f"{stage.name}: output #{j2} differs between float32 and float64 input arrays")
+            labels.add("float32_inputs")
+            continue
         elif which == "reject":
             rejected = False
             try:
@@ -712,7 +742,7 @@ def stage_case(names, sizes):
             "c": st.floats(0.01, 0.99),
             "perm": st.lists(st.floats(0.0, 1.0), min_size=16, max_size=16),
             "split": st.sampled_from(["0", "1", "n-1", "n", "0.5", "0.37", "0.9", "0.41"]),
-            "history": st.lists(st.sampled_from(["same", "perm", "half", "refill", "refill", "scribble", "alt", "other", "other", "strided", "reject", "reject", "bigendian", "fortran2d", "transposed2d", "churn", "interleave", "interleave", "interleave_other", "interleave_other"]), min_size=1, max_size=6),
+            "history": st.lists(st.sampled_from(["same", "perm", "half", "refill", "refill", "scribble", "alt", "other", "other", "strided", "reject", "reject", "bigendian", "fortran2d", "transposed2d", "churn", "interleave", "interleave", "interleave_other", "interleave_other", "float32"]), min_size=1, max_size=6),
             "preempt": st.lists(st.one_of(st.integers(0, 40), st.integers(0, 400), st.integers(0, 6000)), min_size=1, max_size=3),
         }
     )
